@@ -32,7 +32,7 @@ def r1(run):
         run.missing(IMPORT + "|body", "handle_import (calling Store::insert_frame) not found")
         return
     ins = q.live_calls(b, C.INSERT_FRAME)
-    run.exact("insert_frame calls in handle_import", len(ins), 1, b.sp)
+    run.floor("insert_frame calls in handle_import", len(ins), 1, b.sp)
     for c in ins:
         src = q.peel(c.arg(1))
         ok = src[0] == "call" and src[1].fn in ("serde_json::de::from_slice", "serde_json::de::from_str", "serde_json::de::from_reader")
